@@ -36,9 +36,28 @@ def run_case(b, wd, name, comp, faults, allone=False):
     return path, evs
 
 
+def unbounded(ctx):
+    """WriteAllU.tla with Apalache: the inductive invariant of one _write_all call for every buffer length and every sequence of
+    write(2) outcomes (unbounded), and the two regression loops refuted"""
+    od = ctx.sub("apalache")
+    res = {}
+    for tag, cinit, init, inv, length, want in [("base", "ConstInitGood", "Init", "IndInv", 0, "ok"), ("step", "ConstInitGood", "IndInit", "IndInv", 1, "ok"),
+                                                ("implies", "ConstInitGood", "IndInit", "DoneComplete", 0, "ok"),
+                                                ("no_advance", "ConstInitNoAdvance", "IndInit", "IndInv", 1, "violated"),
+                                                ("eintr_moves", "ConstInitEintrMoves", "IndInit", "IndInv", 1, "violated")]:
+        r = core.apalache("WriteAllU", cinit, init, inv, length, os.path.join(od, tag))
+        res[tag] = r
+        if r.startswith("unavailable"):
+            ctx.notes.append("Apalache step %s of WriteAllU not available: %s" % (tag, r))
+        elif r != want:
+            raise core.Infra("WriteAllU: Apalache step %s gave %s, expected %s (specification problem)" % (tag, r, want))
+    ctx.cov["unbounded_inductive_argument"] = res
+
+
 def run(ctx):
     b = build.build("asan")
     rng = ctx.rng
+    unbounded(ctx)
     wd = ctx.sub("w")
     comps = ["snappy"] if ctx.quick() else ["none", "snappy", "zlib", "lz4", "lz4hc", "zstd"]
     recs = []
